@@ -208,7 +208,12 @@ class Emitter:
             gv, ev, nv, iv = self.fresh("g"), self.fresh("e"), self.fresh("n"), self.fresh("i")
             gtag = "%s::%s" % (tagpath, g.name)
             glabel = label + "." + g.name
-            a('%s{ auto %s = %s; auto %s = in.num(); k.expect(in);' % (ind, gv, self.get_expr(view, g.name, tagpath, mode, cursor), nv))
+            a('%s{ auto %s = %s; auto %s = in.num();' % (ind, gv, self.get_expr(view, g.name, tagpath, mode, cursor), nv))
+            # C17: the header filler with a list of other num_in_group arguments first (header-only writes)
+            a('%s  { using N0_ = typename decltype(%s)::size_type; for(auto t_ = in.num(); t_ > 0; t_--) { auto n0_ = in.num(); k.expect(in); '
+              'auto h0_ = ::sbepp::fill_group_header(%s, (N0_)n0_); if((const void*)::sbepp::addressof(h0_) != (const void*)::sbepp::addressof(%s)) k.note("%s$hdr: returned view is not the header"); k.point("%s$hdr(trial)"); } }'
+              % (ind, gv, gv, gv, glabel, glabel))
+            a('%s  k.expect(in);' % ind)
             a('%s  { auto hm_ = in.num(); using N_ = typename decltype(%s)::size_type;' % (ind, gv))
             a('%s    if(hm_ == 0) ::sbepp::fill_group_header(%s, (N_)%s); else { ::sbepp::fill_group_header(%s, (N_)0); %s.resize((N_)%s); } }'
               % (ind, gv, nv, gv, gv, nv))
@@ -249,7 +254,7 @@ class Emitter:
         a('static void enc_%s_%s(%s* p_, std::size_t n_, ::drv::In& in, ::drv::Chk& k)' % (mode, rmsg.name, byte))
         a('{')
         a('  %s m{p_, n_};' % cls)
-        a('  k.expect(in); ::sbepp::fill_message_header(m); k.point("$hdr");')
+        a('  k.expect(in); { auto h_ = ::sbepp::fill_message_header(m); if((const void*)::sbepp::addressof(h_) != (const void*)::sbepp::addressof(m)) k.note("$hdr: returned view is not the header"); } k.point("$hdr");')
         cursor = None
         if mode == "cur":
             a('  auto c = ::sbepp::init_cursor(m);')
@@ -384,6 +389,13 @@ class Script:
         self.t = []
         self.big = schema.big
         self.nops = 0
+        self.trials = False
+
+    @staticmethod
+    def trial_counts(g):
+        from ..model.ir import psize as _ps
+        mx = (1 << (8 * _ps(g.dim.slot("numInGroup").prim))) - 1
+        return [0, 1, mx - 1, mx]
 
     def hdr_writes(self, dim, start, vals):
         ws = []
@@ -421,7 +433,14 @@ class Script:
             g = pg.rgroup
             vals = {"blockLength": g.level.block_length, "numInGroup": pg.n, "numGroups": len(g.level.groups),
                     "numVarDataFields": len(g.level.data)}
-            self.t += ["%x" % pg.n, self.hdr_writes(g.dim, pg.start, vals), "%x" % self.group_how(label + "." + g.name)]
+            trials = self.trial_counts(g) if self.trials else []
+            self.t += ["%x" % pg.n, "%x" % len(trials)]
+            for tn in trials:
+                tv = dict(vals)
+                tv["numInGroup"] = tn
+                self.t += ["%x" % tn, self.hdr_writes(g.dim, pg.start, tv)]
+                self.nops += 1
+            self.t += [self.hdr_writes(g.dim, pg.start, vals), "%x" % self.group_how(label + "." + g.name)]
             self.nops += 1
             for pe, e in zip(pg.entries, inst["g"].get(g.name, [])):
                 self.level(pe, e, label + "." + g.name + "[]")
